@@ -206,6 +206,41 @@ Proof.
   { intros g Hz Hg'. unfold s', set_kind. change (is_rules (mod_ri (upd_ready s rest) t (ri_with_kind KComputing))) with (is_rules (mod_ri s t (ri_with_kind KComputing))).
     apply asum_rules_mod_ri_same; auto. }
   split; [unfold nf, s'; now autorewrite with iv|]. split; [now apply InvT_compute|]. split.
-  - apply (InvI_ctx rules c); auto. apply (InvI_frame_k rules c s); auto. intros t0. apply P6; auto.
-  - apply (InvS_ctx c); auto. apply (InvS_frame_k c s); auto. intros t0. apply P6; auto.
+  - apply (InvI_ctx rules c); auto. apply (InvI_frame_k rules c s); auto; try (intros t0; apply P6; auto).
+  - apply (InvS_ctx c); auto. apply (InvS_frame_k c s); auto; try (intros t0; apply P6; auto).
+Qed.
+
+Lemma Inv_avail_body rules env F syncp c s t : aget (is_tasks s) t <> None -> kind_of s t = KComputing -> ~ In t (is_fintasks s) ->
+  Inv rules c s -> Inv rules c (avail_body rules env F syncp s t).
+Proof.
+  intros Hex Hk Hni HI. unfold avail_body. destruct (aget (is_tasks s) t) as [ti|] eqn:Hg; [|contradiction]. cbn zeta.
+  assert (HI1 : Inv rules c (set_ti s t (ti_with_pending (Some (task_value rules env F t ti)) ti))).
+  { apply Inv_set_pending; auto. }
+  destruct (syncp t); auto. now apply Inv_task_finish.
+Qed.
+
+Lemma Inv_inc_outstanding rules c s : Inv rules (cx_set_slack c (S (cx_slack c))) s -> Inv rules c (upd_outstanding s (S (is_outstanding s))).
+Proof.
+  intros (Hn & HT & HI & HS). split; [exact Hn|]. split; [|split].
+  - destruct HT as [A1 A2 A3 A4 A5 A6 A7 A8 A9 A10 A11]. constructor; autorewrite with iv; auto.
+    cbn [cx_slack cx_set_slack] in A11. change (n_computing (upd_outstanding s (S (is_outstanding s)))) with (n_computing s). lia.
+  - apply InvI_upd_outstanding. now apply (InvI_ctx rules (cx_set_slack c (S (cx_slack c)))).
+  - apply InvS_upd_outstanding. now apply (InvS_ctx (cx_set_slack c (S (cx_slack c)))).
+Qed.
+
+Lemma Inv_step_ready rules env F syncp c s : Inv rules c s -> Inv rules c (step_ready rules env F syncp s).
+Proof.
+  intros HI. unfold step_ready. destruct (is_ready s) as [|t rest] eqn:Hq; auto.
+  pose proof HI as (_ & HT & _).
+  destruct (t_rd1 c s HT t) as (ti & Hg & Hk & Hw); [rewrite Hq; now left|].
+  assert (Hnf : ~ In t (is_fintasks s)).
+  { intros Hin. destruct (t_ft c s HT t Hin) as (_ & _ & Hkc & _). congruence. }
+  unfold run_ready. cbn zeta. change (kind_of (upd_ready s rest) t) with (kind_of s t). rewrite Hk. cbn [kind_eqb check].
+  apply Inv_inc_outstanding. unfold inputs_available.
+  pose proof (Inv_compute rules c s t rest Hq HI) as HI1. set (s1 := set_kind (upd_ready s rest) t KComputing) in *.
+  apply Inv_avail_body.
+  - change (aget (is_tasks (iemit s1 (EAvail t))) t) with (aget (is_tasks s) t). congruence.
+  - change (kind_of (iemit s1 (EAvail t)) t) with (kind_of s1 t). unfold s1, set_kind. now rewrite kind_of_mod_ri, N.eqb_refl.
+  - exact Hnf.
+  - now apply Inv_iemit.
 Qed.
